@@ -17,6 +17,8 @@ structure WFb (c : Conn) : Prop where
   rs : SettingsOk c.remoteSettings
   mof : 16384 ≤ c.maxOutFrame
   dec : DecOk c.hp
+  /-- the local settings' values fit a SETTINGS frame -/
+  ls32 : LS32 c.localSettings
 
 def StreamsNotIdle (ss : List (Int × Stream)) : Prop := ∀ e ∈ ss, e.2.sm.state ≠ .IDLE
 
@@ -132,13 +134,13 @@ theorem wp_connInput_live {Q : Unit → Conn → Prop} {E : Exc → Conn → Pro
     (he : WF { c with cstate := .CLOSED } → E pErr { c with cstate := .CLOSED }) : wp (connInput i) Q E c := by
   unfold wp connInput
   cases h : connTable c.cstate i with
-  | none => exact he ⟨⟨hwf.1.ls, hwf.1.rs, hwf.1.mof, hwf.1.dec⟩, fun hc => absurd rfl hc⟩
+  | none => exact he ⟨⟨hwf.1.ls, hwf.1.rs, hwf.1.mof, hwf.1.dec, hwf.1.ls32⟩, fun hc => absurd rfl hc⟩
   | some t =>
     simp only
     apply hq
     have hcs : c.cstate ≠ .CLOSED := by
       intro hc; rw [hc, closed_refuses i hi] at h; simp at h
-    refine ⟨⟨hwf.1.ls, hwf.1.rs, hwf.1.mof, hwf.1.dec⟩, ?_, hwf.2 hcs⟩
+    refine ⟨⟨hwf.1.ls, hwf.1.rs, hwf.1.mof, hwf.1.dec, hwf.1.ls32⟩, ?_, hwf.2 hcs⟩
     intro ht
     rcases conn_closed_only_by_goaway _ _ _ h ht with h1 | h1 | h1
     · exact hcs h1
@@ -172,7 +174,7 @@ theorem notIdle_setStream {c : Conn} {sid : Int} {st : Stream} (h : StreamsNotId
   · subst heq; exact h _ he0
 
 theorem wfb_setStream {c : Conn} {sid : Int} {st : Stream} (h : WFb c) : WFb (setStream c sid st) :=
-  ⟨h.ls, h.rs, h.mof, h.dec⟩
+  ⟨h.ls, h.rs, h.mof, h.dec, h.ls32⟩
 
 theorem wp_and {σ α} {m : M σ α} {Q1 Q2 : α → σ → Prop} {E1 E2 : Exc → σ → Prop} {s : σ}
     (h1 : wp m Q1 E1 s) (h2 : wp m Q2 E2 s) : wp m (fun a s' => Q1 a s' ∧ Q2 a s') (fun e s' => E1 e s' ∧ E2 e s') s := by
